@@ -187,6 +187,13 @@ def unique_ordered(h):
     conds += [h.not_(v[j] == v[i]) for i in idx for j in range(i)]
     conds += [h.not_(v[idx[a]] == v[idx[b]]) for a in range(len(idx)) for b in range(a)]
     h.check("unique-ordered", h.all(conds))
+    # the other return forms give the same values in the same order
+    plain = h.fn(G + ".unique_ordered")(v)
+    h.check("plain-call-returns-the-values-only", len(getattr(plain, "shape", ())) == 1 and len(plain) == len(idx) and h.all([h.exact(plain[k], u[k]) for k in range(len(idx))]))
+    u2, idx2 = h.fn(G + ".unique_ordered")(v, return_index=True)
+    h.check("index-only-form", [int(i) for i in idx2] == idx and h.all([h.exact(u2[k], u[k]) for k in range(len(idx))]))
+    u3, inv3 = h.fn(G + ".unique_ordered")(v, return_inverse=True)
+    h.check("inverse-only-form", [int(i) for i in inv3] == inv and h.all([h.exact(u3[k], u[k]) for k in range(len(idx))]))
 
 
 @contract("C06", G + ".unique_bincount", name="unique-inverse-counts", kind="bounded-shape", note="n=3 values in 0..3")
